@@ -74,6 +74,7 @@ MALFORMED = ["\\q", "\\x4", "\\xZZ", "\\x", "\\xg1", "\\x4g", "\\u{1}", "\\u{123
 # contexts that keep a malformed body malformed ("g" is not a hex digit)
 MAL_CONTEXTS = [("", ""), ("a", ""), ("", "g"), ("a", "g"), ("\\n", ""), ("\\x41", "g")]
 KINDS = ["str", "ci", "pushl"]
+_KIND_ORDER = {"str": 0, "char": 1, "ci": 2, "pushl": 3, "charpair": 4}
 
 _SLUGS = [
     ("incomplete escape sequence", "incomplete"),
@@ -409,10 +410,10 @@ def run_escape_part(out: Outcome) -> dict:
     # observation), shortest literal first
     by_what: dict[str, list[list]] = {}
     for sig, g in found.items():
-        g.sort(key=lambda c: (len(c[1]), c[0], c[1]))
+        g.sort(key=lambda c: (len(c[1]), _KIND_ORDER.get(c[0], 9), c[1]))
         by_what.setdefault(sig[0], []).append(g)
     for gs in by_what.values():
-        gs.sort(key=lambda g: (len(g[0][1]), g[0][0], g[0][1]))
+        gs.sort(key=lambda g: (len(g[0][1]), _KIND_ORDER.get(g[0][0], 9), g[0][1]))
     picked = []
     depth = 0
     while len(picked) < 20 and any(depth < len(gs) for gs in by_what.values()):
